@@ -1,11 +1,13 @@
 import Tmv.Lemmas.MerkleComplete
+import Tmv.Lemmas.MerkleInclusion
 import Tmv.Model.PartSet
+import Tmv.Model.TxProof
 /-! # C10 — Block parts and Merkle proofs bind content to position
 Property theorems only. `H` is an arbitrary function; the only thing assumed about it is a fixed
 output length `L > 0` (true of SHA-256, needed to split `l ++ r`). Soundness theorems conclude
 "claim ∨ an explicit hash collision", never "no collision exists". -/
 namespace Tmv.Props.C10
-open Tmv Tmv.Merkle Tmv.PartSet
+open Tmv Tmv.Merkle Tmv.PartSet Tmv.TxProof
 variable (H : Bytes → Bytes)
 
 /-- Completeness: the proof built for position `i` verifies for the item at `i`. -/
@@ -63,6 +65,81 @@ theorem verify_position (L : Nat) (hL : 0 < L) (hlen : ∀ x, (H x).length = L)
     · left; exact ⟨by omega, hi, (List.cons.inj hx).2⟩
     · right; exact ⟨⟨_, _, hx, hleaf'⟩⟩
   · right; exact hc
+
+/-- Inclusion with nothing pinned: whatever (index,total,path) the proof states, if it verifies
+against the real root then the leaf is one of the items (or a collision is exhibited) — so
+leaf/inner-node confusion, wrong-length aunts and transplanted paths can at worst restate the
+position of a genuine item, never introduce a foreign one. -/
+theorem verify_inclusion (L : Nat) (hL : 0 < L) (hlen : ∀ x, (H x).length = L)
+    (items : List Bytes) (hne : items ≠ []) (leaf : Bytes) (p : Proof)
+    (hv : verify H (root H items) leaf p = .ok ()) :
+    leaf ∈ items ∨ Nonempty (Collision H) := by
+  unfold verify at hv
+  split at hv; · cases hv
+  split at hv; · cases hv
+  split at hv; · cases hv
+  rename_i hleaf
+  have hrootlen : (root H items).length = L := rootF_len H L hlen _ _
+  have hrne : root H items ≠ [] := by
+    intro h; rw [h] at hrootlen; simp at hrootlen; omega
+  have hcomp : computeRoot H p = some (root H items) := by
+    split at hv
+    · simp [hrne] at hv
+    · rename_i h heq; split at hv
+      · rename_i e; rw [heq, e]
+      · cases hv
+  unfold computeRoot at hcomp
+  split at hcomp; · cases hcomp
+  have hlh : p.leafHash = leafHash H leaf := by simpa using hleaf
+  rw [hlh] at hcomp
+  exact fromAunts_inclusion H L hlen items.length items (Nat.le_refl _) hne _ _ _ leaf _ hcomp
+
+/-- The proof a full node serves for transaction `i` validates against the block's data hash. -/
+theorem txproof_validates (L : Nat) (hL : 0 < L) (hlen : ∀ x, (H x).length = L)
+    (txs : List Bytes) (i : Nat) (hi : i < txs.length) :
+    validate H (txsHash H txs) (proofFor H txs i) = .ok () := by
+  have hi' : i < (txs.map H).length := by simpa using hi
+  have hv := proofs_verify H (txs.map H) i hi'
+  unfold validate proofFor txsHash
+  have hd : txs.getD i [] = txs[i] := by simp [List.getD_eq_getElem?_getD, hi]
+  have h1 : ¬ ((proofOf H (txs.map H) i).index < 0) := by simp [proofOf]
+  have h2 : ¬ ((proofOf H (txs.map H) i).total ≤ 0) := by
+    simp only [proofOf, List.length_map]; omega
+  simp only [ne_eq, not_true_eq_false, if_false, h1, h2, hd]
+  have : (txs.map H)[i] = H txs[i] := by simp
+  rw [this] at hv
+  rw [hv]
+
+/-- A transaction proof that validates against the data hash of a block whose transactions are
+`txs`, and that states the true number of transactions, is for the transaction that sits at the
+stated index (or a collision is exhibited). -/
+theorem txproof_position (L : Nat) (hL : 0 < L) (hlen : ∀ x, (H x).length = L)
+    (txs : List Bytes) (hne : txs ≠ []) (tp : TxProof)
+    (ht : tp.proof.total = txs.length)
+    (hv : validate H (txsHash H txs) tp = .ok ()) :
+    (0 ≤ tp.proof.index ∧ ∃ h : tp.proof.index.toNat < txs.length, tp.data = txs[tp.proof.index.toNat])
+      ∨ Nonempty (Collision H) := by
+  unfold validate at hv
+  split at hv; · cases hv
+  rename_i hdh
+  split at hv; · cases hv
+  split at hv; · cases hv
+  split at hv
+  · rename_i u hver
+    have hroot : tp.rootHash = root H (txs.map H) := by
+      have : txsHash H txs = tp.rootHash := by simpa using hdh
+      rw [← this]; rfl
+    rw [hroot] at hver
+    have hver' : verify H (root H (txs.map H)) (H tp.data) tp.proof = .ok () := by rw [hver]
+    rcases verify_position H L hL hlen (txs.map H) (by simpa using hne) (H tp.data) tp.proof
+        (by simpa using ht) hver' with ⟨h0, hi, he⟩ | hc
+    · have hi' : tp.proof.index.toNat < txs.length := by simpa using hi
+      simp only [List.getElem_map] at he
+      by_cases hx : tp.data = txs[tp.proof.index.toNat]
+      · left; exact ⟨h0, hi', hx⟩
+      · right; exact ⟨⟨_, _, hx, he⟩⟩
+    · right; exact hc
+  · cases hv
 
 /-- `Verify` alone does not bind `total`: in a 2-leaf tree, the second item also verifies as
 "item 2 of 3". This is why callers (e.g. `AddPart`) must pin `total` themselves. -/
